@@ -382,6 +382,42 @@ def registry_names(an):
     return out
 
 
+def lazy_name(an, afn, nm):
+    """`global nm` in afn: exactly one rebinding statement in the whole module, guarded by a test of nm itself (is None / not nm),
+    the value computed from nothing call-specific (no parameter, no written module state)."""
+    m = an.mods[afn.rel]
+    sites = []
+    for q, f in m.functions.items():
+        g = an.fns.get((afn.rel, q))
+        if g is None or nm not in g.globals_decl:
+            continue
+        for n in g.own:
+            if isinstance(n, (ast.Assign, ast.AnnAssign, ast.AugAssign)):
+                tg = n.targets if isinstance(n, ast.Assign) else [n.target]
+                if any(isinstance(t, ast.Name) and t.id == nm for t in tg):
+                    sites.append((g, n))
+            elif isinstance(n, (ast.For, ast.With, ast.NamedExpr, ast.Delete)) and O._binds(n, nm) and not isinstance(n, (ast.For, ast.With)):
+                sites.append((g, None))
+    if len(sites) != 1 or sites[0][1] is None or isinstance(sites[0][1], ast.AugAssign):
+        return False
+    g, n = sites[0]
+    pm = O.parents_of(g)
+    guarded = False
+    for i in g.own:
+        if isinstance(i, ast.If) and any(isinstance(t, ast.Name) and t.id == nm for t in ast.walk(i.test)):
+            if O.inside(pm, n, i.body) or O.inside(pm, n, i.orelse) or ((O.exits(i.body) or O.exits(i.orelse)) and i.end_lineno < n.lineno):
+                guarded = True
+    return guarded and not O.deps(an, g, n.value, at=n)
+
+
+def lazy_singleton(an, x, rebinds):
+    if not rebinds:
+        return False
+    e = rebinds[0]
+    afn = an.fns[e["fn"]]
+    return all(r["fn"] == e["fn"] for r in rebinds) and lazy_name(an, afn, x.split("::", 1)[1])
+
+
 _ROLES = {}
 
 
@@ -565,14 +601,15 @@ def policy(repo, tier):
         sites.sort(key=lambda t: (t[0].rel, t[0].node.lineno, t[6]["node"].lineno, getattr(t[2], "lineno", 0), getattr(t[2], "col_offset", 0)))
         accessors = sorted({t[0].q for t in sites} | {r.q for (r, _e) in opaque} | {e["fn"][1] for e in cw})
         for k, (root, sf, key, val, chain, how, e) in enumerate(sites):
-            kd_h, vd_h = O.deps(an, sf, key), O.deps(an, sf, val)
+            at_ = e["node"] if sf.key() == e["fn"] else None        # the store statement: only definitions that reach it count
+            kd_h, vd_h = O.deps(an, sf, key, at=at_), O.deps(an, sf, val, at=at_)
             kd, vd = O.lift_deps(an, sf, kd_h, chain), O.lift_deps(an, sf, vd_h, chain)
             ok = vd <= kd
             h = hint(x, writer=root.q, accessors=accessors)
             # H3a: the stored value is computed from nothing but what the key is computed from (parameters and module state)
             GH(f"{S}/memo#stored-value-depends-only-on-the-key-site{k}", ok,
                f"{x} in {root.q} ({how}): key depends on {sorted(kd)}, stored value depends on {sorted(vd)}" +
-               ("" if ok else " -- a later call with the same key and other arguments gets a stale value"), x, h=h)
+               ("" if ok else " -- a later call with the same key and other arguments gets a stale value"), x, definite=False, h=h)
             # H3b: ... and the key DETERMINES each of those inputs (two different inputs never share a key)
             lost = []
             for p in sorted(vd_h):
@@ -647,7 +684,7 @@ def policy(repo, tier):
                         bad.append(f"{root.q}: {how} stores a {part} that depends on the call ({sorted(d)})")
             GH(f"{S}/frame#non-empty-means-completely-populated", not bad,
                "; ".join(sorted(set(bad))[:4]) or f"{x}: guard in {sorted({gf.q for (gf, _g, _f) in eg})}; all {len(cw)} write(s) behind it, none depends on a parameter", x,
-               definite=not opaque, h=hint(x, accessors=accessors))
+               definite=False, h=hint(x, accessors=accessors))
             # H9b (schedules): the population is not observable half-done by another thread
             direct = [e for e in cw if not e["removal"] and not O.site_locked(an, an.fns[e["fn"]], e["node"])]
             stepwise = [e for e in direct if an.fns[e["fn"]].loops.get(id(e["node"]))] or (direct if len(direct) > 1 else [])
@@ -666,19 +703,23 @@ def policy(repo, tier):
         vm = an.vmuts(x)
         GH(f"{S}/ownership#objects-handed-out-by-the-cache-are-never-mutated", not vm,
            "; ".join(f"{e['fn'][1]}: {e['how']}" for e in vm[:4]) or f"{x}: handed out through {[k_[1] for k_, f_ in sorted(an.fns.items()) if ('V:' + x) in f_.ret or ('S:' + x) in f_.ret]}; no mutation site reaches them",
-           x, definite=any(e["definite"] for e in vm), h=hint(x, accessors=accessors))
+           x, definite=any(O.certain_mutation(an, e) for e in vm), h=hint(x, accessors=accessors))
         # H4: a module-level name is rebound only by configuration functions -- functions no extraction code path reaches
         if rebinds:
             badr = []
-            for e in rebinds:
+            lazy = lazy_singleton(an, x, rebinds)
+            for e in ([] if lazy else rebinds):
                 for ch in O.top_chains(an, an.fns[e["fn"]]):
                     top = ch[-1]
                     if O.is_generator(top) or top.node.name in entry_names or O.referenced_elsewhere(an, top):
                         badr.append(f"{e['fn'][1]} ({e['how']}) is reached from {top.q}")
-            GH(f"{S}/frame#rebound-only-by-configuration-functions", not badr, "; ".join(sorted(set(badr))[:4]) or f"{x}: rebound by {sorted({e['fn'][1] for e in rebinds})}, which no extraction path calls",
-               x, h={"context_managers": [[e["fn"][0], e["fn"][1]] for e in rebinds if O.is_context_manager(an.fns[e["fn"]])]})
+            GH(f"{S}/frame#rebound-only-by-configuration-functions", not badr, "; ".join(sorted(set(badr))[:4]) or
+               (f"{x}: bound once, behind a test of its own emptiness, to a value that depends on nothing call-specific" if lazy else
+                f"{x}: rebound by {sorted({e['fn'][1] for e in rebinds})}, which no extraction path calls"),
+               x, definite=False, h={"context_managers": [[e["fn"][0], e["fn"][1]] for e in rebinds if O.is_context_manager(an.fns[e["fn"]])]})
         # H5: what kind of state is this?  a guarded keyed cache / registry, or configuration -- anything else is not understood
-        kind_ok = (bool(sites) and not opaque and all(g for e in cw if not e["removal"] for (_r, g, _c) in chains_of.get(id(e), []))) or (bool(rebinds) and not cw)
+        kind_ok = (bool(sites) and not opaque and all(g for e in cw if not e["removal"] for (_r, g, _c) in chains_of.get(id(e), []))) or (bool(rebinds) and not cw) \
+            or (not cw and not rebinds)                       # only reordered / evicted: nothing to understand
         if not kind_ok:
             unrecognised.append(x)
     inv = ground_obligation("C15/package/policy#inventory-of-module-level-mutable-state", not unrecognised and bool(written) and an.converged,
@@ -690,7 +731,7 @@ def policy(repo, tier):
     other = [e for e in an.events if e["kind"] == "vmut" and e["state"] not in written]
     GH("C15/package/ownership#module-level-tables-and-memoised-results-are-never-mutated-through-aliases", not other,
        "; ".join(f"{e['state']} in {e['fn'][1]}: {e['how']}" for e in other[:4]) or f"{len(an.state)} module- / class-level mutable objects, {len(an.cached_fns)} memoised functions", "package",
-       definite=any(e["definite"] for e in other), h={"rel": rel_of.get(other[0]["state"]) if other else None})
+       definite=any(O.certain_mutation(an, e) for e in other), h={"rel": rel_of.get(other[0]["state"]) if other else None})
     # memoised functions (lru_cache / cache): pure functions of their parameters that read no mutable module state (transitively)
     per_file_m = {}
     for key in sorted(an.cached_fns, key=lambda k_: (k_[0], an.fns[k_].node.lineno)):
@@ -704,7 +745,7 @@ def policy(repo, tier):
             reads_state = sorted(set(afn.reads) & set(written))
             G(f"C15/{base(rel)}::memoised#{i}/memo#memoised-function-has-no-side-effect-and-reads-no-mutable-state",
               not stores and not attr_stores and not reads_state and not afn.mut,
-              f"{key[1]}: globals={len(stores)} stores={len(attr_stores)} mutated-params={sorted(afn.mut)} state-reads={reads_state}", rel)
+              f"{key[1]}: globals={len(stores)} stores={len(attr_stores)} mutated-params={sorted(afn.mut)} state-reads={reads_state}", rel, definite=False)
     # H5b: module-level names rebound from inside functions (`global X`) that are NOT recognised state, and reflective access
     rebinders = []
     for (rel, q), afn in sorted(an.fns.items()):
@@ -712,6 +753,8 @@ def policy(repo, tier):
             if any(isinstance(n, ast.Name) and n.id == nm and isinstance(n.ctx, (ast.Store, ast.Del)) for n in afn.own):
                 if an.sid(rel, nm) in written:
                     continue                                       # a state object: its own obligations (H4) decide
+                if lazy_name(an, afn, nm):
+                    continue                                       # bound once behind `if NAME is None`, to something call-independent
                 tops = [ch[-1] for ch in O.top_chains(an, afn)]
                 if any(O.is_generator(t) or t.node.name in entry_names or O.referenced_elsewhere(an, t) for t in tops):
                     rebinders.append((rel, q, f"{base(rel)}::{q} rebinds global {nm} and is reached from {sorted({t.q for t in tops})[:3]}"))
@@ -721,7 +764,7 @@ def policy(repo, tier):
             if isinstance(n, ast.Subscript) and dotted(n.value) == "sys.modules":
                 rebinders.append((rel, q, f"{base(rel)}::{q} reaches module state through sys.modules[...]"))
     rb = ground_obligation("C15/package/policy#no-module-level-name-is-rebound-by-extraction-code", not rebinders,
-                           "; ".join(r[2] for r in rebinders[:4]) or "no function that extraction code reaches rebinds a module-level name", "package")
+                           "; ".join(r[2] for r in rebinders[:4]) or "no function that extraction code reaches rebinds a module-level name", "package", definite=False)
     rb["replay_hint"] = {"context_managers": [[rel, q] for (rel, q, _w) in rebinders if O.is_context_manager(an.fns[(rel, q)])]}
     obls.append(rb)
     # H5c: a mutable default argument that the function mutates is module-level state in disguise
@@ -733,7 +776,8 @@ def policy(repo, tier):
         for (arg, d) in pairs:
             if O.mutable_expr(d) and arg.arg in afn.mut:
                 md.append(f"{base(rel)}::{q}({arg.arg}={ast.unparse(d)[:20]}) is mutated by the function")
-    G("C15/package/policy#no-mutable-default-argument-is-mutated", not md, "; ".join(md[:5]) or "no function mutates a parameter that has a mutable default", "package")
+    G("C15/package/policy#no-mutable-default-argument-is-mutated", not md, "; ".join(md[:5]) or "no function mutates a parameter that has a mutable default", "package",
+      definite=False)
     # H11: interpreter- / library-wide settings (the state behind os, sys, locale, warnings, logging, csv, mimetypes, PIL, pypdf ...)
     sites_s = []
     for (rel, q), afn in sorted(an.fns.items()):
@@ -845,7 +889,10 @@ def policy(repo, tier):
                                 for fb in nxt.finalbody for r in ast.walk(fb)) if tgt else False
                             if not ok_:
                                 bad.append(f"{rel}:{c.lineno} {dotted(c.func)}: the temporary object is not removed by a `finally` that starts right after its creation")
-    G("C15/package/typestate#every-handle-opened-by-own-code-is-closed-on-all-paths", not bad and n_sites >= 20, "; ".join(bad[:6]) or f"{n_sites} open sites", "package")
+    # recognised release shapes only (with-item, close() in finally / handler, owner object with close / __exit__, rmtree in the finally right
+    # after mkdtemp): an unrecognised shape is `unknown` -- the native probes (damaged archives, abandoned generators) decide
+    G("C15/package/typestate#every-handle-opened-by-own-code-is-closed-on-all-paths", not bad and n_sites >= 10, "; ".join(bad[:6]) or f"{n_sites} open sites", "package",
+      definite=False)
     return {"obligations": obls, "functions": fns}
 
 
